@@ -158,6 +158,29 @@ def desugar_for(text, body_open, n, itname, hits, plain=False, entry=None, exit_
     return text
 
 
+def desugar_while_let(text, body_open, n, hits, exit_=None):
+    """R11b: the n-th loop, which must be `while let Some(ID) = EXPR {`, becomes `loop { let ID = match EXPR { Some(v__) => v__,
+    None => { <exit proof> break; } };` -- Rust's own meaning of `while let`; after a `while let` Verus does not know that the
+    pattern failed to match, with the explicit break an `ensures` can say so.  Line structure is preserved."""
+    lp = _loops(text, body_open)
+    if n > len(lp):
+        raise CutError('anchor lost: desugar_while_let loop %d (function has %d loops)' % (n, len(lp)))
+    m = mask(text)
+    ob = lp[n - 1]
+    kws = [mm for mm in re.finditer(r'\b(while|loop|for)\b', text) if m[mm.start()] == CODE and mm.start() >= body_open and mm.start() < ob]
+    kw = kws[-1]
+    head = text[kw.end():ob]
+    mm = re.match(r'\s*let\s+Some\(\s*([A-Za-z_][A-Za-z0-9_]*)\s*\)\s*=(.*)$', head, re.S)
+    if kw.group(1) != 'while' or not mm:
+        raise CutError('desugar_while_let: loop %d is not `while let Some(id) = expr`' % n)
+    ident, expr = mm.group(1), mm.group(2).strip()
+    nl = head.count('\n')
+    new_head = 'loop ' + '\n' * nl
+    new_body = '{ let %s = match %s { Some(v__) => v__, None => { %sbreak; } }; ' % (ident, ' '.join(expr.split()), ('proof { %s } ' % exit_) if exit_ else '')
+    hits['R11b.while_let_desugared'] = hits.get('R11b.while_let_desugared', 0) + 1
+    return text[:kw.start()] + new_head + new_body + text[ob + 1:]
+
+
 class Piece:
     """a run of generated lines with a common origin description"""
 
@@ -263,6 +286,14 @@ def _apply_conditionals(lines, repo_root, asm):
             parent = all(a for a, _, _ in stack) if stack else True
             stack.append((parent and val, val, False))
             asm.conditions.append({'line': no, 'path': kv['path'], 'regex': kv['regex'], 'holds': val})
+            out.append('')
+            continue
+        if st.startswith('//@ifunit '):
+            # //@ifunit A,B : template text shared by several units (one file, regions per unit)
+            names = st[len('//@ifunit '):].replace(' ', '').split(',')
+            val = asm.unit in names
+            parent = all(a for a, _, _ in stack) if stack else True
+            stack.append((parent and val, val, False))
             out.append('')
             continue
         if st.startswith('//@else'):
@@ -549,6 +580,10 @@ def _finish_cut(asm, c, text, hits, kv, secs, kind):
             pos_, kv_ = _kv(tk[1:])
             text = desugar_for(text, 0, int(pos_[0]), pos_[1] if len(pos_) > 1 else 'it', hits, plain=(len(pos_) > 2 and pos_[2] == 'plain'),
                                entry=kv_.get('entry'), exit_=kv_.get('exit'))
+    for tk, lines_, no in secs:
+        if tk[0] == 'desugar_while_let':
+            pos_, kv_ = _kv(tk[1:])
+            text = desugar_while_let(text, 0, int(pos_[0]), hits, exit_=kv_.get('exit'))
     m = mask(text)
     if kind == 'fn':
         fnkw = re.search(r'\bfn\s+' + re.escape(kv['name']) + r'\b', text)
@@ -565,7 +600,7 @@ def _finish_cut(asm, c, text, hits, kv, secs, kind):
     fname = kv.get('rename', kv.get('name', kv.get('label', 'slice')))
     for tk, lines_, no in secs:
         t0 = tk[0]
-        if t0 in ('replace', 'desugar_for', 'opaque_unsafe', 'bytelits'):
+        if t0 in ('replace', 'desugar_for', 'opaque_unsafe', 'bytelits', 'desugar_while_let'):
             continue
         if t0 == 'mutate':
             mutations.append((tk[1], tk[2], no))
